@@ -3,8 +3,10 @@ import Tahoe.Spans.DataLemmas
 import Tahoe.Spans.RegLemmas
 import Tahoe.Spans.TraceLemmas
 import Tahoe.Spans.CanonLemmas
+import Tahoe.Spans.EachLemmas
+import Tahoe.Spans.RemoveLemmas
 /-! C37 — byte-range bookkeeping is exact (property theorems; helper lemmas live in
-`Tahoe/Spans/{Lemmas,DataLemmas,RegLemmas,TraceLemmas,CanonLemmas}.lean`).
+`Tahoe/Spans/{Lemmas,DataLemmas,RegLemmas,TraceLemmas,CanonLemmas,EachLemmas,RemoveLemmas}.lean`).
 
 ## Coverage of the statement
 
@@ -17,7 +19,7 @@ intersect, get and pop operations."  Models: `Tahoe/Spans/Model.lean` (`Spans`),
 | clause | theorem(s) |
 |---|---|
 | span set = set of integers under **add** | `mem_add`, `wf_add` |
-| … under **remove** | `mem_removeOne`, `mem_remove`, `wf_remove` |
+| … under **remove** | `mem_removeOne`, `mem_remove`, `wf_remove`; the method as written (in-place pass, deferred slice delete, append+sort): `remove_as_written_eq` |
 | … under **intersect** (`&`) | `mem_inter`, `wf_inter`; the operator as written, with its copies: `operators_eq` |
 | … `+`, `-`, `+=`, `-=` (not named in the statement, used by the callers) | `mem_addAll`, `mem_removeAll`, `operators_eq` |
 | queries of the span set: `(s,l) in spans`, `len()` | `containsRange_iff_forall_mem`, `len_eq_card`, `mem_lt_bound` |
@@ -32,8 +34,9 @@ intersect, get and pop operations."  Models: `Tahoe/Spans/Model.lean` (`Spans`),
 | … every *answer* (contains / get / pop) along every history equals the reference machine's | `spans_trace`, `dspans_trace`, `get_after_history` |
 | several objects: results of `&`, `-`, `+`, copies are values of their own | model spec `rstep_frame_r`, `rstep_frame_d`, `result_then_mutate_keeps_operands`; for the real objects (aliasing is not expressible in a pure model): correspondence + monitor on named-value histories (`aliased-result:*`) |
 | copy constructors `Spans(other)`, `DataSpans(other)` return an equal value | `spCopy_eq_self`, `dCopy_byteAt` |
-| `bool()`, `each()`, `_dump()`, `dump()`, `get_chunks()` returning a fresh list | monitor only (no model definition) |
-| `get`/`pop` with `length = 0` (answers `b""` inside a chunk, `None` elsewhere) | outside the statement; correspondence only (example after `get_eq_specRead`) |
+| `each()` / `_dump()` enumerate exactly the members / held offsets, once each, ascending; `bool()` = non-empty | `each_enumerates_members`, `dump_enumerates_offsets`, `bool_iff_nonempty` |
+| `dump()` (debug string), `get_chunks()` returning a fresh list | monitor only (formatting / object identity; no model definition) |
+| `get`/`pop` with `length = 0` (outside the statement: a partial map has no answer to prefer) | characterised exactly: `get_pop_zero_length` (`b""` iff the offset is held, else `None`; `pop` never changes the buffer) |
 | `a += a`, `a -= a` (operand is the object being mutated; repaired in /repo 13d6c66) | model = fold over a snapshot (`Op.union`/`Op.diff` in `spans_history`); correspondence on named-value histories + monitor probe |
 | negative offsets / lengths (Python ints) | not covered (`Nat`; `Spans` asserts `start >= 0`, `length > 0`) |
 
@@ -389,5 +392,52 @@ example : (∀ q ∈ [SQ.op (.add 0 4), SQ.contains 1 2, SQ.op (.union [(4, 2)])
   intro q hq
   simp only [List.mem_cons, List.mem_nil_iff, or_false] at hq
   rcases hq with rfl | rfl | rfl | rfl | rfl | rfl <;> simp [SQ.valid, Op.valid, WF]
+
+/-! ## Part 5: enumerations, truthiness, empty ranges -/
+
+/-- `each()` yields exactly the members (for any span list), as many as `len()` says; on a well-formed list
+strictly ascending, i.e. every member exactly once in increasing order -/
+theorem each_enumerates_members (s : List Span) (h : WF s) :
+    (∀ x, x ∈ each s ↔ mem s x = true) ∧ (each s).length = len s ∧ (each s).Pairwise (· < ·) :=
+  ⟨mem_each s, each_length s, each_sorted ((wf_iff_chain s).1 h)⟩
+
+/-- `_dump()` yields exactly the held offsets, as many as `len()` says, strictly ascending -/
+theorem dump_enumerates_offsets (s : List Chunk) (h : DInv s) :
+    (∀ x, x ∈ dDump s ↔ (byteAt s x).isSome = true) ∧ (dDump s).length = dlen s ∧ (dDump s).Pairwise (· < ·) :=
+  ⟨mem_dDump s, by rw [dDump_eq_each, each_length, dlen_eq_len], dDump_sorted h⟩
+
+/-- `bool(spans)` / `bool(dataspans)` (`bool(self.len())`) is true exactly when something is held -/
+theorem bool_iff_nonempty (s : List Span) (d : List Chunk) (hs : WF s) (hd : DInv d) :
+    (spBool s = true ↔ ∃ x, mem s x = true) ∧ (dBool d = true ↔ ∃ x, (byteAt d x).isSome = true) :=
+  ⟨spBool_iff ((wf_iff_chain s).1 hs), dBool_iff hd⟩
+
+example : WF [(3, 2), (9, 1)] ∧ each [(3, 2), (9, 1)] = [3, 4, 9] ∧ spBool [(3, 2), (9, 1)] = true ∧ spBool [] = false ∧
+    DInv [(3, [7, 7]), (9, [1])] ∧ dDump [(3, [7, 7]), (9, [1])] = [3, 4, 9] ∧ dBool [(3, [7, 7]), (9, [1])] = true :=
+  ⟨by simp [WF], by decide, by decide, by decide, by simp [DInv, DChain], by decide, by decide⟩
+
+/-- the empty range, which the statement does not speak about, exactly as the code answers it: `get(a, 0)` is `b""`
+when offset `a` is held and `None` otherwise; `pop(a, 0)` answers the same and never changes the buffer -/
+theorem get_pop_zero_length (s : List Chunk) (a : Nat) (h : DInv s) :
+    dget a 0 s = (if (byteAt s a).isSome = true then some [] else none) ∧ dpop s a 0 = (dget a 0 s, s) :=
+  ⟨dget_zero a h, dpop_zero a h⟩
+
+example : DInv [(0, [1, 2, 3])] ∧ dget 1 0 [(0, [1, 2, 3])] = some [] ∧ dget 3 0 [(0, [1, 2, 3])] = none ∧
+    dpop [(0, [1, 2, 3])] 1 0 = (some [], [(0, [1, 2, 3])]) :=
+  ⟨by simp [DInv, DChain], by decide, by decide, by decide⟩
+
+/-- `Spans.remove` as written — one pass over `_spans` with in-place trims, the completely covered spans deleted
+afterwards as one slice `[first_complete_overlap : last_complete_overlap+1]`, a middle split done by append + sort +
+break (`removeLit`) — equals the span-by-span `remove` of Part 1 on every list satisfying the class invariant
+(the completely covered spans are contiguous there, and a middle split leaves no other overlap) -/
+theorem remove_as_written_eq (s : List Span) (a l : Nat) (h : WF s) : removeLit s a l = remove s a l :=
+  removeLit_eq a l ((wf_iff_chain s).1 h)
+
+example : WF [(0, 2), (4, 2), (8, 2), (12, 4)] ∧ removeLit [(0, 2), (4, 2), (8, 2), (12, 4)] 1 13 = [(0, 1), (14, 2)] ∧
+    removeLit [(0, 10)] 3 4 = [(0, 3), (7, 3)] :=
+  ⟨by simp [WF], by decide, by decide⟩
+
+/-- what the hypothesis excludes: on a list that violates the invariant (unsorted) the slice delete also takes a span
+that is not covered, and the two differ -/
+example : removeLit [(0, 2), (20, 2), (4, 2)] 0 10 = [] ∧ remove [(0, 2), (20, 2), (4, 2)] 0 10 = [(20, 2)] := by decide
 
 end Tahoe.C37
